@@ -160,8 +160,7 @@ theorem rewrite_writeAt {s : State} {addr : Nat} {d : List UInt8} {hit : Option 
   rw [if_pos hc, hw]
 
 theorem rewrite_spec {s : State} (inv : Inv s) (addr : Nat) (d : List UInt8)
-    (hp : (addr, d.length) ∈ s.pending)
-    (hsmall : ∀ seg, s.active = some seg → seg.buf.length < 4294967296) :
+    (hp : (addr, d.length) ∈ s.pending) :
     (rewrite s addr d).2 = .ok ∧ Inv (rewrite s addr d).1 ∧
     (∀ k, ¬ (addr ≤ k ∧ k < addr + d.length) → image (rewrite s addr d).1 k = image s k) ∧
     (∀ i, i < d.length → image (rewrite s addr d).1 (addr + i) = d[i]?) ∧
@@ -225,10 +224,8 @@ theorem rewrite_spec {s : State} (inv : Inv s) (addr : Nat) (d : List UInt8)
         obtain ⟨a1, a2, a3, a4⟩ := inv.2.1 seg ha
         have h1 : seg.base ≤ addr := h1
         have h2 : addr + d.length ≤ seg.base + seg.buf.length := h2
-        have hsm := hsmall seg ha
         refine ⟨hhit.mpr (a4 addr h1 (by omega)), h1, ?_⟩
         unfold Active.cur u32Max
-        rw [Nat.mod_eq_of_lt hsm]
         omega
     obtain ⟨m', hput, hm, habs⟩ := put_zero inv addr d H
     rw [rewrite_viaMap hf hn hput]
